@@ -519,6 +519,34 @@ int vd_utils_main(int argc, char **argv);
  * the value without any bound, so at every depth: PointerTo gives "/0" or "/a" per level and Resolve brings it back (C15); equal documents
  * give an empty patch / no merge patch, a changed leaf gives a patch that transforms one into the other (C17, C18); test + replace on the
  * leaf succeeds (C16).  Built with the API, compared by printing (cJSON_Compare is exponential on nested objects). */
+/* ["W", fold]: the case folding of the case-insensitive member order as a byte table (MC_Big: FoldOrderLemma).  Two members whose keys differ in one
+ * byte, every pair of byte values, both variants: the smaller (folded) byte comes first, equal folded bytes may stand in either order but a second sort
+ * keeps it (C19), links stay healthy. */
+static long foldsort_pairs;
+static void do_foldsort(const jv *v)
+{
+    const jv *tab = jv_at(v, 1); unsigned fold[256]; unsigned b1, b2; int cs;
+    if (!tab || tab->n != 255) { viol("*", "fold table malformed"); return; }
+    for (b1 = 1; b1 <= 255; b1++) fold[b1] = (unsigned)jv_int(tab->e[b1 - 1]);
+    for (b1 = 1; b1 <= 255; b1++) { vd_tick(); for (b2 = 1; b2 <= 255; b2++) for (cs = 0; cs < 2; cs++) {
+        char k1[5] = { 'k', 0, 'x', 0, 0 }, k2[5] = { 'k', 0, 'x', 0, 0 }; cJSON *o, *m1, *m2, *f, *s; unsigned x1, x2; int want1;
+        if ((b1 + b2 + (unsigned)cs) % 2 && b1 > 32 && b1 < 127 && b2 > 32 && b2 < 127 && !((b1 >= 58 && b1 <= 96) || (b2 >= 58 && b2 <= 96))) continue;     /* half of the plain digit / lower-case pairs */
+        k1[1] = (char)b1; k2[1] = (char)b2;
+        o = cJSON_CreateObject(); m1 = cJSON_AddNumberToObject(o, k1, 1); m2 = cJSON_AddNumberToObject(o, k2, 2); foldsort_pairs++;
+        if (cs) cJSONUtils_SortObjectCaseSensitive(o); else cJSONUtils_SortObject(o);
+        x1 = cs ? b1 : fold[b1]; x2 = cs ? b2 : fold[b2];
+        f = o->child; s = f ? f->next : NULL;
+        if (!f || !s || s->next || f->prev != s || s->prev != f || !((f == m1 && s == m2) || (f == m2 && s == m1))) { viol("C19", "sorting two members (key bytes %02x, %02x; %s) does not leave the two members in a healthy chain", b1, b2, cs ? "case sensitive" : "case insensitive"); cJSON_Delete(o); al_case_begin(); continue; }
+        want1 = x1 < x2 ? 1 : x1 > x2 ? 2 : 0;
+        if (want1 && f != (want1 == 1 ? m1 : m2)) viol("C19", "%s sort: the key with byte %02x stands before the key with byte %02x", cs ? "case sensitive" : "case insensitive", (want1 == 1) ? b2 : b1, (want1 == 1) ? b1 : b2);
+        if (cs) cJSONUtils_SortObjectCaseSensitive(o); else cJSONUtils_SortObject(o);
+        if (o->child != f || !o->child || o->child->next != s) viol("C19", "sorting twice differs from sorting once (key bytes %02x, %02x, %s)", b1, b2, cs ? "case sensitive" : "case insensitive");
+        cJSON_Delete(o);
+        if (al_live != 0) { viol("C07 C19", "sorting two members leaves %ld block(s) allocated", al_live); al_case_begin(); }
+        if ((foldsort_pairs & 1023) == 0) al_case_begin();
+        if (VD.violations > 20) return;
+    } }
+}
 static long deep_util_cases;
 static cJSON *deep_doc(int depth, int shape, double leaf, cJSON **inner)
 {
@@ -640,7 +668,7 @@ int vd_utils_main(int argc, char **argv)
             al_in_call = 1;
             if (kind[0] == 'G') do_lookup(v); else if (kind[0] == 'F') do_find(v); else if (kind[0] == 'A') do_apply(v);
             else if (kind[0] == 'M') do_merge(v); else if (kind[0] == 'P') do_pair(v);
-            else if (kind[0] == 'D') do_dup(v); else if (kind[0] == 'S') do_sort(v); else if (kind[0] == 'Z') do_scale_sort(v); else if (kind[0] == 'Q') do_keyquery(v);
+            else if (kind[0] == 'D') do_dup(v); else if (kind[0] == 'S') do_sort(v); else if (kind[0] == 'Z') do_scale_sort(v); else if (kind[0] == 'Q') do_keyquery(v); else if (kind[0] == 'W') do_foldsort(v);
             else { fprintf(stderr, "vdrv: unknown line kind %s\n", kind); return 2; }
             al_in_call = 0; VD_END();
         } else { al_in_call = 0; viol("*", "memory fault or hang in a utility call (line kind %s, address %p)", kind, (void*)vd_fault_addr); }
